@@ -399,17 +399,17 @@ def result_ops(prog):
     return out
 
 
-def gen_round(rng, nthreads, nops, use_spq=False):
-    nshared = rng.choice([0, 2, 4]) if not use_spq else rng.choice([2, 4])
+def gen_round(rng, nthreads, nops, use_spq=False, cold=False):
+    nshared = 0 if cold else (rng.choice([0, 2, 4]) if not use_spq else rng.choice([2, 4]))
     shared = [gen_geom(rng, rng.choice(['star', 'blobhole', 'squares', 'zigzag', 'lines', 'collection'])) for _ in range(nshared)]
     kinds = []
     for t in range(nthreads):
         kinds.append(rng.choice(['private', 'reader', 'mixed', 'churn'] if nshared else ['private', 'private', 'churn', 'mixed']))
     if nthreads >= 2 and 'churn' not in kinds: kinds[-1] = 'churn'
     progs = [gen_program(rng, k, nshared, nops, use_spq) for k in kinds]
-    txt = 'shared %s\nseed %d\n' % (' '.join(scan.hexwkb(g) for g in shared), rng.randrange(1 << 30))
+    txt = 'shared %s\nseed %d\n%s' % (' '.join(scan.hexwkb(g) for g in shared), rng.randrange(1 << 30), 'cold\n' if cold else '')
     txt += ''.join('thread %s\n' % ' ; '.join(p) for p in progs)
-    return dict(nthreads=nthreads, kinds=kinds, nshared=nshared, text=txt, progs=progs, use_spq=use_spq)
+    return dict(nthreads=nthreads, kinds=kinds, nshared=nshared, text=txt, progs=progs, use_spq=use_spq, cold=cold)
 
 
 # ===================================================================== ThreadSanitizer reports
@@ -543,7 +543,7 @@ def run(ctx):
         all_spq = os.environ.get('VERIF_C13_SPQ') == '1'       # stress knob: every round shares a prepared geometry
         tcs = [2, 2, 3, 4, 4, 6, 8, 8, 12, 16]
         for i in range(nr):
-            rounds.append(gen_round(ctx.rng, tcs[i % len(tcs)], ctx.rng.choice([12, 25, 40]) if ctx.quick else ctx.rng.choice([25, 40, 60]), use_spq=(all_spq or i % 3 == 1)))
+            rounds.append(gen_round(ctx.rng, tcs[i % len(tcs)], ctx.rng.choice([12, 25, 40]) if ctx.quick else ctx.rng.choice([25, 40, 60]), use_spq=(all_spq or i % 3 == 1), cold=(not all_spq and i % 3 == 2)))
     par = max(2, NPROC // 4)
     results = {}
     with ThreadPoolExecutor(max_workers=par) as ex:
@@ -619,6 +619,9 @@ def run(ctx):
         if sum(1 for r in rounds if r.get('use_spq')) < 20:
             ctx.broken.append(dict(kind='generator', name='distribution', detail='fewer than 20 rounds share a prepared geometry'))
         ctx.notes['rounds_sharing_a_prepared_geometry'] = sum(1 for r in rounds if r.get('use_spq'))
+        ctx.notes['cold_start_rounds'] = sum(1 for r in rounds if r.get('cold'))
+        if sum(1 for r in rounds if r.get('cold')) < 20:
+            ctx.broken.append(dict(kind='generator', name='distribution', detail='fewer than 20 cold-start rounds (first use of process-wide objects concurrent in the workers)'))
         for need in ('churn', 'reader', 'private'):
             if not dist['kinds'].get(need):
                 ctx.broken.append(dict(kind='generator', name='distribution', detail='no thread of kind %s' % need))
